@@ -197,9 +197,18 @@ func typeKey(t types.Type) string {
 
 // elemKey is the heap key for slice elements of type t; basic element types are
 // keyed by their underlying kind so that []byte, Bitmap and hash.Hash share it.
+// basicName is the canonical name of a basic type (byte and uint8, rune and
+// int32 are the same type).
+func basicName(b *types.Basic) string {
+	if int(b.Kind()) < len(types.Typ) && types.Typ[b.Kind()] != nil {
+		return types.Typ[b.Kind()].Name()
+	}
+	return b.Name()
+}
+
 func elemKey(t types.Type) string {
 	if b, ok := t.Underlying().(*types.Basic); ok {
-		return "A:" + b.Name()
+		return "A:" + basicName(b)
 	}
 	if _, ok := t.Underlying().(*types.Pointer); ok {
 		return "A:ptr"
@@ -215,7 +224,7 @@ func elemKey(t types.Type) string {
 
 func boxKey(t types.Type) string {
 	if b, ok := t.Underlying().(*types.Basic); ok {
-		return "box:" + b.Name()
+		return "box:" + basicName(b)
 	}
 	if s, ok := t.Underlying().(*types.Slice); ok {
 		return "box:[]" + elemKey(s.Elem())
